@@ -205,17 +205,24 @@ def lifecycle(ctx, xh, xm, dflt, nseq):
               b'<!ENTITY e "ent">]><r><a x="1">t&e;</a><a>u</a><!-- c --><?pi d?></r>')
     sticky_seen = 0
     digests = set()
-    seqs = [["I4", "T"], ["I0", "I4", "T", "T", "T"], ["I4", "T", "I5", "T", "I0", "T"],
-            ["I4:%d.%d.%d" % (4 * dflt[0], dflt[1], dflt[2]), "T", "I4", "T"]]
+    # an op is I<user>[:initial.max.maxSub]~LNP (L: a locale the loader keeps, N: nlsHome non-null, P: application panic handler) or T.
+    # EVERY argument of both Initialize overloads varies, and every re-initialisation at count 0 uses another manager than the last.
+    seqs = [["I4~100", "T"], ["I0~100", "I4~111", "T", "T", "T"], ["I4~110", "T", "I5~011", "T", "I0~111", "T", "I6~000", "T"],
+            ["I4:%d.%d.%d~110" % (4 * dflt[0], dflt[1], dflt[2]), "T", "I5~000", "T"],
+            ["I4~010", "I5~111", "T", "T", "I5~010", "T", "I0~010", "T", "I4~100", "T"]]
     while len(seqs) < nseq:
         ops = []
         depth = 0
-        for _ in range(rng.randrange(2, 12)):
+        last_u = None
+        for _ in range(rng.randrange(2, 14)):
             if depth == 0 or rng.random() < 0.5:
-                u = rng.choice([0, 4, 5, 6])
+                u = rng.choice([x for x in (0, 4, 5, 6, 7) if depth > 0 or x != last_u])
+                if depth == 0:
+                    last_u = u
                 op = "I%d" % u
                 if rng.random() < 0.3:
                     op += ":%d.%d.%d" % (rng.choice([dflt[0], 2 * dflt[0], 4096]), dflt[1], dflt[2])
+                op += "~%d%d%d" % (rng.randrange(2), rng.randrange(2), rng.randrange(2))
                 ops.append(op); depth += 1
             else:
                 ops.append("T"); depth -= 1
@@ -228,10 +235,14 @@ def lifecycle(ctx, xh, xm, dflt, nseq):
         for k, op in enumerate(ops):
             lab = "L%d.%d" % (si, k)
             if op[0] == "I":
-                u, _, d = op[1:].partition(":")
+                core, _, fl = op[1:].partition("~")
+                fl = fl or "100"
+                u, _, d = core.partition(":")
                 ln = "init %s user=%s" % (lab, u)
                 if d:
                     ln += " dom=" + d.replace(".", ",")
+                ln += " loc=%s nls=%s ph=%s" % (rng.choice(["en_US", "fr", "de_DE_x"]) if fl[0] == "1" else rng.choice(["0", "bad", "toolong"]),
+                                                rng.choice(["/opt/xerces/nls", "n"]) if fl[1] == "1" else "0", fl[2])
                 lines.append(ln)
                 depth += 1
             else:
@@ -256,13 +267,16 @@ def lifecycle(ctx, xh, xm, dflt, nseq):
         st = {}
         verdicts, bad = judge(ctx, o, lines, "life", st)
         for label, ln in bad[:3]:
-            ctx.violation("lifecycle", {"what": "blocks of the global manager outstanding (or mis-freed) after the last Terminate",
+            ctx.violation("lifecycle", {"what": "per-manager verdict of the extracted monitor: blocks of a global manager outstanding after the "
+                                                "last Terminate, or a pointer released through a manager that does not own it",
                                         "verdict": ln, "request": lines})
-        impl_states = ["live=%s/mgr=%s" % (ln.split()[2].split("=")[1], ln.split()[3].split("=")[1]) for ln in o if ln.startswith("st ")]
+        impl_states = ["/".join(ln.split()[2:6]) for ln in o if ln.startswith("st ")]
+        if any(t == "foreign=1" for t in mlines.get("L%d" % si, [])):
+            ctx.violation("model", {"what": "the lifecycle model itself releases a string through a foreign manager", "ops": ops}, no_input=True)
         model = mlines.get("L%d" % si, [])
         model_states = [t for t in model if t.startswith("live=")]
         if impl_states != model_states:
-            ctx.violation("divergence", {"what": "Initialize/Terminate state differs from the model (live iff count > 0, manager ownership)",
+            ctx.violation("divergence", {"what": "Initialize/Terminate state differs from the model (live iff count > 0, manager ownership, message-loader strings)",
                                          "impl": impl_states, "model": model_states, "request": lines})
         for ln in o:
             if ln.startswith("r ") and " ref " in ln:
@@ -272,6 +286,7 @@ def lifecycle(ctx, xh, xm, dflt, nseq):
         cur = list(dflt)
         cnt = 0
         for op in ops:
+            op = op.split("~")[0]
             if op[0] == "I":
                 cnt += 1
                 if cnt == 1 and ":" in op:
@@ -286,6 +301,7 @@ def lifecycle(ctx, xh, xm, dflt, nseq):
             cnt = 0
             curp = list(dflt)
             for op in ops:
+                op = op.split("~")[0]
                 if op[0] == "I":
                     cnt += 1
                     if cnt == 1:
@@ -308,6 +324,7 @@ def lifecycle(ctx, xh, xm, dflt, nseq):
             cnt = 0
             curp = list(dflt)
             for op in ops:
+                op = op.split("~")[0]
                 if op[0] == "I":
                     cnt += 1
                     if cnt == 1:
@@ -727,7 +744,7 @@ def run(ctx):
 
     # ---- 3. lifecycle: Initialize/Terminate sequences, each in its own process ----------------------
     t2 = time.time()
-    lifecycle(ctx, xh, xm, dflt, 60 if thorough else 14)
+    lifecycle(ctx, xh, xm, dflt, 120 if thorough else 24)
     ctx.note("lifecycle: %.1fs" % (time.time() - t2))
 
     # ---- 4. witnesses of the known findings (each in its own process) -------------------------------
